@@ -13,7 +13,7 @@ RULE = ("digitize: strictly monotonic bins (length 1..40 quick / 1..80 thorough,
         "digitize-lengths: every length 1..64 (1..200 thorough) x both directions on integer edges (exhaustive over lengths). "
         "trees: DecisionTreeRegressor/Classifier fitted on generated float32-grid data (depth 1..6, single-node trees included), "
         "queries on the grid plus float32 neighbours of every threshold; oracles: apply(), children arrays, and box<->routing "
-        "equivalence in both directions. Non-trivial: >=3 bins and an edge hit (digitize); >=3 leaves (trees).")
+        "equivalence in both directions; then the same estimator object is refitted (mirrored data, reversed targets or a prefix) and everything is checked again on the tree it holds now. Non-trivial: >=3 bins and an edge hit (digitize); >=3 leaves (trees).")
 ASSUMPTIONS = [
     "query points are float32-representable: scikit-learn trees cast X to float32 before comparing with float64 thresholds, "
     "so a double such as 0.1 is legitimately routed differently from numpy.digitize on the double (input contract of every "
@@ -142,23 +142,22 @@ def _queries(model, X, extra):
     return np.vstack(qs).astype(np.float32)
 
 
-def check_tree(case):
-    model, X = _fit_tree(case)
+def _check_model(model, X, extra, facts, stage=""):
     t = model.tree_
-    Q = _queries(model, X, case["q"])
+    Q = _queries(model, X, extra)
     ref_leaves = [i for i in range(t.node_count) if t.children_left[i] == -1 and t.children_right[i] == -1]
-    facts = dict(n_leaves=len(ref_leaves), kind=case["kind"], d=int(X.shape[1]))
+    facts = dict(facts, n_leaves=len(ref_leaves))
     app = model.apply(Q)
 
     got = _str.predict_leaves(model, Q)
-    require(np.array_equal(np.asarray(got), app), "predict_leaves:differs",
+    require(np.array_equal(np.asarray(got), app), "predict_leaves:differs" + stage,
             "predict_leaves=%r apply=%r" % (np.asarray(got).tolist()[:10], app.tolist()[:10]), facts)
     for i in range(0, len(Q), max(1, len(Q) // 6)):
         one = _str.predict_leaves(model, Q[i:i + 1])
-        require(np.asarray(one).shape == (1,) and int(np.asarray(one)[0]) == int(app[i]), "predict_leaves:single-row",
+        require(np.asarray(one).shape == (1,) and int(np.asarray(one)[0]) == int(app[i]), "predict_leaves:single-row" + stage,
                 "row %d alone -> %r, apply -> %d" % (i, np.asarray(one).tolist(), int(app[i])), facts)
     li = _str.tree_leave_index(model)
-    require(sorted(int(i) for i in li) == ref_leaves and len(li) == len(ref_leaves), "leave_index:differs",
+    require(sorted(int(i) for i in li) == ref_leaves and len(li) == len(ref_leaves), "leave_index:differs" + stage,
             "tree_leave_index=%r, nodes without children=%r" % (list(li), ref_leaves), facts)
     require(set(app.tolist()) <= set(ref_leaves), "leave_index:apply-not-leaf", "", facts)
     Q64 = Q.astype(np.float64)
@@ -176,12 +175,34 @@ def check_tree(case):
         bad = np.nonzero(inbox != routed)[0]
         if len(bad):
             i = int(bad[0])
-            raise Violation("node_range:" + ("box-not-in-leaf" if inbox[i] else "leaf-not-in-box"),
+            raise Violation("node_range:" + ("box-not-in-leaf" if inbox[i] else "leaf-not-in-box") + stage,
                             "leaf %d range %r, point %r routed to %d" % (leaf, R.tolist(), Q64[i].tolist(), int(app[i])), facts)
+    return ref_leaves
+
+
+def check_tree(case):
+    model, X = _fit_tree(case)
+    facts = dict(kind=case["kind"], d=int(X.shape[1]))
+    ref_leaves = _check_model(model, X, case["q"], facts)
+    t = model.tree_
     nl = len(ref_leaves)
     labels = [case["kind"], "best-first" if case.get("max_leaf_nodes") else "depth-first", "leaves=1" if nl == 1 else ("leaves=2" if nl == 2 else ("leaves<=6" if nl <= 6 else "leaves>6")),
               "d=%d" % X.shape[1]]
     shape_key = dict(kind=case["kind"], feat=t.feature.tolist(), left=t.children_left.tolist(), thr=t.threshold.tolist())
+    # the SAME estimator object refitted (what a loop over data sets or a grid search does): on the mirrored data the tree has the same
+    # number of leaves at other node ids, on a prefix of the data usually fewer; the utilities must describe the tree it holds now
+    refit = case.get("refit", "mirror")
+    y = np.array(case["y"])
+    if refit == "mirror":
+        X2, y2 = (-X).astype(np.float32), y
+    elif refit == "reverse-target":
+        X2, y2 = X, y[::-1].copy()
+    else:
+        k = max(1, len(X) // 2)
+        X2, y2 = X[:k], y[:k]
+    model.fit(X2, y2)
+    leaves2 = _check_model(model, X2, case["q"], dict(facts, refit=refit), stage=":after-refit")
+    labels.append("refit:" + refit + (":same-leaf-count-other-ids" if len(leaves2) == nl and leaves2 != ref_leaves else ""))
     return Outcome(labels, nl >= 3, key=shape_key)
 
 
@@ -199,7 +220,7 @@ def _tree_cases(draw, tier="quick"):
     q = draw(st.lists(st.lists(st.integers(-48, 48).map(lambda k: k / 4.0), min_size=d, max_size=d), max_size=10))
     return dict(X=X, y=y, kind=kind, max_depth=draw(st.integers(1, 6)), min_samples_leaf=draw(st.integers(1, 3)),
                 rs=draw(st.integers(0, 5)), splitter=draw(st.sampled_from(["best", "random"])), q=q,
-                max_leaf_nodes=draw(st.sampled_from([None, None, 3, 5, 8, 12])))
+                max_leaf_nodes=draw(st.sampled_from([None, None, 3, 5, 8, 12])), refit=draw(st.sampled_from(["mirror", "mirror", "reverse-target", "prefix"])))
 
 
 CLAUSES = [
